@@ -282,6 +282,7 @@ struct HashMgrSim : Sim {
                 int len_mode = 0;
                 int64_t len_fixed = 0;
                 bool jump_run = false;    // C15 counter-jump workload
+                uint64_t jump_J = 0;      // the jump applied so far (0 before it)
                 bool libdata = false;     // some segments are taken from the library's static data
                 int64_t giant = 0;        // != 0: clients 0 .. ngiant-1 are giant clients
                 int ngiant = 0, giants_inflight = 0, giants_used = 0;
@@ -404,9 +405,10 @@ struct HashMgrSim : Sim {
                 // running total (C15 clause, also C01)
                 uint64_t tl = u64(c.ctx, d.off_total);
                 e.obs(0x200 + ci, tl);
-                if (tl != c.total && s.jump_run) {
-                        // the library did not take ctx->total_length as its only record of the running total: the counter jump is not a
-                        // faithful model of this implementation, the run says nothing
+                if (tl != c.total && s.jump_run && tl + s.jump_J == c.total) {
+                        // the library reports exactly the total without the jump: it did not take ctx->total_length as its only record of the
+                        // running total, the counter jump is not a faithful model of this implementation and the run says nothing. (Any
+                        // other mismatch is a wrong total and is judged below.)
                         s.r->cov.hit("counter_jump_not_honoured_run_not_judged");
                         e.tainted = true;
                         throw RunAbort();
@@ -421,6 +423,10 @@ struct HashMgrSim : Sim {
                         std::vector<uint8_t> want_d = ctx_digest_image(d.a, c.ref.digest_bytes());
                         e.obs_bytes(0x300 + ci, c.ctx + d.off_digest, d.digest_bytes);
                         if (memcmp(c.ctx + d.off_digest, want_d.data(), d.digest_bytes) != 0) {
+                                if (c.rejected_pending)
+                                        e.violation("C11", "digest-after-reject", "C11/digest-after-reject/" + s.tag,
+                                                    strfmt("%s: client %d was the target of a rejected submit earlier in this message and now completes with a wrong digest",
+                                                           s.tag.c_str(), ci));
                                 const char *prop = c.total >= (1ULL << 29) ? "C15" : "C01";
                                 e.violation(prop, "digest", std::string(prop) + "/digest/" + s.tag,
                                             strfmt("%s: client %d completed (%s) with digest %s, reference %s over %llu bytes in %llu segments",
@@ -1550,6 +1556,7 @@ void HashMgrSim::execute_jump(const Plan &p, Env &e, RunResult &r)
                 uint64_t D = 1 + (uint64_t) (o.c % (3u << 20));
                 uint64_t J = ((thr - D - pos) / d.block) * d.block;
                 u64(c.ctx, d.off_total) += J;
+                s.jump_J = J;
                 c.total += J;
                 c.ref.total += J;
                 pos += J;
